@@ -307,8 +307,9 @@ func c07Tag(r *c07Reg) []byte {
 }
 
 // handler returns the application handler of one registration: it reports that it ran (with what it sees on
-// its stream), reads the dialer's nonce, answers with its own tag followed by the nonce, and keeps the stream
-// open until the dialer is done with it.
+// its stream), sends its own tag at once (a dialer may read before it writes, or never write), reads the dialer's
+// nonce if one comes, echoes it, and keeps the stream open until the dialer is done with it. It works with whatever
+// the dialer does first on the stream (see c07Scripts).
 func (in *c07Inst) handler(reg *c07Reg) network.StreamHandler {
 	return func(s network.Stream) {
 		inv := &c07Inv{reg: reg, proto: s.Protocol(), remote: s.Conn().RemotePeer(), limited: s.Conn().Stat().Limited}
@@ -316,16 +317,26 @@ func (in *c07Inst) handler(reg *c07Reg) network.StreamHandler {
 		inv.deadAt = reg.dead
 		in.log = append(in.log, inv)
 		in.mu.Unlock()
+		if _, err := s.Write(c07Tag(reg)); err != nil {
+			s.Reset()
+			return
+		}
 		var nonce [c07NonceLen]byte
 		_ = s.SetReadDeadline(time.Now().Add(30 * time.Second)) // virtual time: fires only if nothing else can happen
-		if _, err := io.ReadFull(s, nonce[:]); err != nil {
+		n, err := io.ReadFull(s, nonce[:])
+		if err == io.EOF && n == 0 {
+			// the dialer half-closed (or closed) without writing anything: a request-less use of the protocol
+			s.Close()
+			return
+		}
+		if err != nil {
 			s.Reset()
 			return
 		}
 		in.mu.Lock()
 		inv.nonce, inv.gotNonce = nonce, true
 		in.mu.Unlock()
-		if _, err := s.Write(append(c07Tag(reg), nonce[:]...)); err != nil {
+		if _, err := s.Write(nonce[:]); err != nil {
 			s.Reset()
 			return
 		}
